@@ -8,6 +8,7 @@ import (
 	"errors"
 	"fmt"
 	"io"
+	"sort"
 	"strings"
 
 	netty "github.com/go-netty/go-netty"
@@ -207,20 +208,24 @@ func scenario(cfg hlib.ChanCfg, kinds []string, bound int) *explore.Scenario {
 			}
 		},
 		Outcome: func(x *vsched.Exec, v any) string {
+			// canonical (linearisation independent): the multiset of handler events, the close
+			// results and the transport log (whose order is fixed by the happens-before trace)
 			o := v.(*obs)
-			var b strings.Builder
+			var evs []string
 			for _, e := range o.log {
-				b.WriteString(e.kind)
+				s := e.kind
 				if e.err != nil {
-					b.WriteString("(" + e.err.Error() + ")")
+					s += "(" + e.err.Error() + ")"
 				}
-				b.WriteByte(' ')
+				evs = append(evs, s)
 			}
-			b.WriteString("| ")
+			sort.Strings(evs)
+			var cl []string
 			for _, c := range o.closes {
-				fmt.Fprintf(&b, "%s:%v ", c.who, c.returned)
+				cl = append(cl, fmt.Sprintf("%s:%v", c.who, c.returned))
 			}
-			return b.String() + "| " + o.env.T.LogString()
+			sort.Strings(cl)
+			return strings.Join(evs, " ") + " | " + strings.Join(cl, " ") + " | " + o.env.T.LogString()
 		},
 		Check: func(x *vsched.Exec, v any) []explore.Finding {
 			o := v.(*obs)
